@@ -23,7 +23,15 @@ fn run_case(case: &J) -> J {
     let id = case["id"].clone();
     let mut out = json!({"id": id});
     if let Some(text) = case["text"].as_str() {
-        out["parse_spec_text"] = parse_db(text);
+        let mut r = parse_db(text);
+        if case["quiet"].as_bool().unwrap_or(false) {
+            // only the class of the answer is wanted (the input may nest thousands of levels)
+            if r.get("ok").is_some() {
+                r = json!({"ok": true});
+            }
+            return json!({"id": id, "parse_spec_text": r});
+        }
+        out["parse_spec_text"] = r;
     }
     let term: Term<DeBruijn> = match term_from_json(&case["term"]) {
         Ok(t) => t,
